@@ -110,6 +110,8 @@ Invariants(s, e, p) ==
     C16_immutable |-> Must(Immutable(s, p)),
     C16_lp_denoms_unique |-> Must(LpDenomsUnique(p)),
     C10_no_weight_without_position |-> Must(NoWeightWithoutPosition(p)),
+    C05_farm_manager_holds_locked_lp |-> Must(\A d \in DOMAIN p.bal["fm"] :
+                                               BLe(BSum({q \in DOMAIN p.fm.pos : p.fm.pos[q].lp = d}, LAMBDA q : p.fm.pos[q].amt), p.bal["fm"][d])),
     C14_no_buffer_left |-> Must(~p.pm_buffer) ]
 
 (* ------------------------------------------------------------------ swaps (C03 C04 C12 C13 C17 C19) *)
@@ -214,7 +216,10 @@ JudgeSwap(s, e, p) ==
        C13_belief_rejected_only_beyond_tolerance |-> G(~e.ok /\ e.err = "slippage" /\ wellformed /\ e.belief.set /\ e.belief.v # Z /\ q.ok,
                                                        BeliefRejectedRightly(dx, e.belief.v, q.ret, tol)),
        C19_quote_near_exact    |-> G(q.ok /\ wellformed /\ ss /\ dx # Z, QuoteNearExact(pl, o, a, dx, Gross(q))),
-       C19_output_below_reserve |-> G(q.ok /\ wellformed /\ pl.kind = "ss", BLt(BAdd(BAdd(q.ret, q.protocol), q.burn), pl.res[a]) \/ Gross(q) = Z),
+       C19_refuses_without_valid_invariant |-> G(wellformed /\ pl.kind = "ss" /\ ~AllPositive(pl.res) /\ dx # Z,
+                                                 (~q.ok \/ Gross(q) = Z) /\ (~e.ok \/ r.ret = Z)),   \* nothing is priced off a degenerate invariant
+       \* "exceeding": an output equal to the reserve (a fee-less pool drained by an oversized offer) is within one unit of the exact answer
+       C19_output_below_reserve |-> G(q.ok /\ wellformed /\ pl.kind = "ss", BLe(BAdd(BAdd(q.ret, q.protocol), q.burn), pl.res[a])),
        C20_pool_rejected_noop  |-> G(~e.ok, Unchanged(s, p)) ]
 
 (* ------------------------------------------------------------------ routed swaps *)
@@ -488,6 +493,8 @@ Judge(s, e) ==
     [] e.ev = "q_rsim" -> JudgeRsim(s, e)
     [] e.ev = "q_pages" -> JudgePages(e)
     [] e.ev = "advance" -> JudgeAdvance(s, e, e.post)
+    [] e.ev = "fm_direct" -> [ C10_direct_close_only_touches_the_position |->
+                                Must(Pools(e.post) = Pools(s) /\ e.post.bal = s.bal /\ e.post.supply = s.supply) ]   \* a close in the farm manager moves no money
     [] e.ev = "donate" -> JudgeDonate(s, e, e.post)
     [] e.ev = "pm_swap" -> JudgeSwap(s, e, e.post)
     [] e.ev = "pm_route" -> JudgeRoute(s, e, e.post)
